@@ -7,11 +7,12 @@
 //! real `add_known_peer` / `KBucketEntry::insert`.
 use crate::util::*;
 use litep2p::{
-    protocol::libp2p::kademlia::verif::{ConnectionType, KBucketEntry, KademliaPeer, Key, RoutingTable},
+    protocol::libp2p::kademlia::verif::{ConnectionType, KBucketEntry, KademliaPeer, Key, RoutingTable, SchemaPeer},
     transport::Endpoint,
     types::ConnectionId,
     PeerId,
 };
+use litep2p::transport::verif::take_evicted;
 use multiaddr::{Multiaddr, Protocol};
 use std::{
     collections::HashMap,
@@ -20,7 +21,6 @@ use std::{
 };
 
 const LIMBS: usize = 8;
-const NADDR: usize = 6;
 
 pub(crate) fn peer_from_seed(seed: u64) -> PeerId {
     let mut b = vec![0x00u8, 32];
@@ -79,7 +79,50 @@ struct KeyEnt {
     key: Key<PeerId>,
 }
 
-type Snap = Vec<Vec<[u64; 3]>>;
+/// Address number a (see coq/C14/AddrModel.v): a = 2m is address m with the /p2p suffix of the
+/// peer, a = 2m+1 the same address without it; m < 100 private (10.0.0.m+1), m >= 100 global
+/// (8.8.x.y); the TCP port carries m so that dumps can be mapped back.
+fn addr_of(a: u64, peer: &PeerId) -> Multiaddr {
+    let m = (a / 2) % 60_000;
+    let base: Multiaddr = if m < 100 {
+        format!("/ip4/10.0.0.{}/tcp/{}", m + 1, 1000 + m).parse().unwrap()
+    } else {
+        format!("/ip4/8.8.{}.{}/tcp/{}", (m - 100) / 200, (m - 100) % 200 + 1, 1000 + m).parse().unwrap()
+    };
+    if a % 2 == 0 {
+        base.with(Protocol::P2p((*peer).into()))
+    } else {
+        base
+    }
+}
+
+fn addr_id(x: &Multiaddr) -> u64 {
+    let mut m = 0u64;
+    let mut suffix = false;
+    for p in x.iter() {
+        match p {
+            Protocol::Tcp(port) => m = (port as u64).wrapping_sub(1000),
+            Protocol::P2p(_) => suffix = true,
+            _ => {}
+        }
+    }
+    2 * m + (!suffix) as u64
+}
+
+fn addrs_of(l: &[u64], peer: &PeerId) -> Vec<Multiaddr> {
+    l.iter().map(|a| addr_of(*a, peer)).collect()
+}
+
+/// the address lists of the short operation forms: numbers 1, 3, 5, ... (at most six)
+fn addrs_old(n: u64) -> Vec<u64> {
+    (0..n.min(6)).map(|i| 2 * i + 1).collect()
+}
+
+const SCORE_OFF: i64 = 1 << 31;
+
+/// one node of a dump: key id, has-address flag, connection, address store sorted by number
+type SnapNode = (u64, u64, u64, Vec<(u64, u64)>);
+type Snap = Vec<Vec<SnapNode>>;
 
 fn snapshot(t: &RoutingTable, ids: &HashMap<[u8; 32], u64>) -> Snap {
     (0..t.verif_num_buckets())
@@ -87,32 +130,36 @@ fn snapshot(t: &RoutingTable, ids: &HashMap<[u8; 32], u64>) -> Snap {
             t.verif_bucket(i)
                 .iter()
                 .map(|n| {
-                    [
+                    let mut st: Vec<(u64, u64)> = n
+                        .verif_address_records()
+                        .iter()
+                        .map(|(a, sc)| (addr_id(a), (*sc as i64 + SCORE_OFF) as u64))
+                        .collect();
+                    st.sort();
+                    (
                         ids.get(&n.verif_key().verif_raw()).copied().unwrap_or(0),
                         n.verif_has_addresses() as u64,
                         conn_code(n.verif_connection()),
-                    ]
+                        st,
+                    )
                 })
                 .collect()
         })
         .collect()
 }
 
-fn emit_buckets(out: &mut Vec<u64>, l: &[(usize, &Vec<[u64; 3]>)]) {
+fn emit_buckets(out: &mut Vec<u64>, l: &[(usize, &Vec<SnapNode>)]) {
     out.push(l.len() as u64);
     for (i, b) in l {
         out.push(*i as u64);
         out.push(b.len() as u64);
         for n in b.iter() {
-            out.extend(n);
+            out.extend([n.0, n.1, n.2, n.3.len() as u64]);
+            for (a, sc) in n.3.iter() {
+                out.extend([*a, *sc]);
+            }
         }
     }
-}
-
-fn addrs(n: usize) -> Vec<Multiaddr> {
-    (0..n.min(NADDR))
-        .map(|i| format!("/ip4/10.0.0.{}/tcp/{}", i + 1, 1000 + i).parse().unwrap())
-        .collect()
 }
 
 /// what `add_known_peer` does to the addresses before storing them
@@ -128,28 +175,60 @@ fn with_p2p(a: Vec<Multiaddr>, peer: PeerId) -> Vec<Multiaddr> {
         .collect()
 }
 
-/// Runs one case against the real RoutingTable; seeds > 0 get their key limbs filled in.
-fn run_case(c: &mut Vec<u64>) -> Option<Vec<u64>> {
+struct Reader<'a> {
+    c: &'a [u64],
+    i: usize,
+}
+
+impl<'a> Reader<'a> {
+    fn n(&mut self) -> Option<u64> {
+        let x = *self.c.get(self.i)?;
+        self.i += 1;
+        Some(x)
+    }
+    fn list(&mut self) -> Option<Vec<u64>> {
+        let n = self.n()? as usize;
+        if n > self.c.len() {
+            return None;
+        }
+        let l = self.c.get(self.i..self.i + n)?.to_vec();
+        self.i += n;
+        Some(l)
+    }
+}
+
+fn put_list(out: &mut Vec<u64>, l: &[u64]) {
+    out.push(l.len() as u64);
+    out.extend(l);
+}
+
+/// Runs one case against the real RoutingTable. Returns the case as it is handed to the model
+/// (limbs of SHA-256 keys, evicted addresses and observed address lists filled in) and the trace.
+fn run_case(c: &[u64]) -> Option<(Vec<u64>, Vec<u64>)> {
     let nkeys = *c.first()? as usize;
     if nkeys == 0 || c.len() < 1 + nkeys * (LIMBS + 1) + 1 {
         return None;
     }
+    let mut case: Vec<u64> = vec![nkeys as u64];
     let mut keys: Vec<KeyEnt> = Vec::with_capacity(nkeys);
     for i in 0..nkeys {
         let off = 1 + i * (LIMBS + 1);
         let seed = c[off];
+        case.push(seed);
         if seed > 0 {
             let peer = peer_from_seed(seed);
             let key = Key::from(peer);
-            let l = raw_to_limbs(&key.verif_raw());
-            c[off + 1..off + 1 + LIMBS].copy_from_slice(&l);
+            case.extend(raw_to_limbs(&key.verif_raw()));
             keys.push(KeyEnt { real: true, peer, key });
         } else {
             if c[off + 1..off + 1 + LIMBS].iter().any(|x| *x > u32::MAX as u64) {
                 return None;
             }
+            case.extend(&c[off + 1..off + 1 + LIMBS]);
             let raw = limbs_to_raw(&c[off + 1..off + 1 + LIMBS]);
-            let peer = peer_from_seed((1u64 << 40) + i as u64);
+            // one peer id per key: an entry that repeats an earlier key names the same peer
+            let first = keys.iter().position(|k: &KeyEnt| k.key.verif_raw() == raw).unwrap_or(i);
+            let peer = peer_from_seed((1u64 << 40) + first as u64);
             keys.push(KeyEnt { real: false, peer, key: Key::verif_from_raw(raw, peer) });
         }
     }
@@ -157,27 +236,43 @@ fn run_case(c: &mut Vec<u64>) -> Option<Vec<u64>> {
     for (i, k) in keys.iter().enumerate() {
         ids.entry(k.key.verif_raw()).or_insert(i as u64 + 1);
     }
-    let mut i = 1 + nkeys * (LIMBS + 1);
-    let nops = *c.get(i)? as usize;
-    i += 1;
+    let mut rd = Reader { c, i: 1 + nkeys * (LIMBS + 1) };
+    let nops = rd.n()? as usize;
     if nops > c.len() {
         return None;
     }
+    case.push(nops as u64);
     let mut table = RoutingTable::new(keys[0].key.clone());
     let mut snap = snapshot(&table, &ids);
     let mut out = vec![1u64];
+    let _ = take_evicted();
     for _ in 0..nops {
-        let tag = *c.get(i)?;
-        let ke = keys.get(*c.get(i + 1)? as usize)?;
+        let tag = rd.n()?;
+        let kix = rd.n()?;
+        let ke = keys.get(kix as usize)?;
         let (key, peer) = (ke.key.clone(), ke.peer);
-        i += 2;
+        case.extend([tag, kix]);
         let code: u64;
+        // rich operations carry a victims list that is observed, not given
+        let mut rich = false;
         match tag {
             0 => code = entry_code(&table.entry(key)),
-            1 => {
-                let (a, cn) = (*c.get(i)? != 0, conn_of(*c.get(i + 1)?));
-                i += 2;
-                let ad = addrs(a as usize);
+            1 | 11 => {
+                let (l, cn) = if tag == 1 {
+                    let a = rd.n()?;
+                    let cn = rd.n()?;
+                    case.extend([a, cn]);
+                    (if a != 0 { vec![1] } else { vec![] }, cn)
+                } else {
+                    let l = rd.list()?;
+                    let cn = rd.n()?;
+                    let _ = rd.list()?;
+                    put_list(&mut case, &l);
+                    case.push(cn);
+                    rich = true;
+                    (l, cn)
+                };
+                let (ad, cn) = (addrs_of(&l, &peer), conn_of(cn));
                 if ke.real {
                     let mut e = table.entry(key);
                     code = entry_code(&e);
@@ -192,24 +287,35 @@ fn run_case(c: &mut Vec<u64>) -> Option<Vec<u64>> {
                     };
                 }
             }
-            2 => {
-                let (na, cn) = (*c.get(i)? as usize, conn_of(*c.get(i + 1)?));
-                i += 2;
+            2 | 12 => {
+                let (l, cn) = if tag == 2 {
+                    let a = rd.n()?;
+                    let cn = rd.n()?;
+                    case.extend([a, cn]);
+                    (addrs_old(a), cn)
+                } else {
+                    let l = rd.list()?;
+                    let cn = rd.n()?;
+                    let _ = rd.list()?;
+                    put_list(&mut case, &l);
+                    case.push(cn);
+                    rich = true;
+                    (l, cn)
+                };
+                let (ad, cn) = (addrs_of(&l, &peer), conn_of(cn));
                 if ke.real {
-                    table.add_known_peer(peer, addrs(na), cn);
+                    table.add_known_peer(peer, ad, cn);
                     code = 9;
-                } else if na == 0 {
+                } else if ad.is_empty() {
                     code = 4;
                 } else {
-                    let ad = with_p2p(addrs(na), peer);
+                    let ad = with_p2p(ad, peer);
                     code = match table.entry(key.clone()) {
                         KBucketEntry::Occupied(n) => {
                             n.push_addresses(ad);
-                            // the rule of add_known_peer (fix F-C14b): NotConnected does not
-                            // overwrite Connected
-                            if !(n.verif_connection() == ConnectionType::Connected
-                                && cn == ConnectionType::NotConnected)
-                            {
+                            // the rule of add_known_peer (fixes F-C14b, F-C14c): nothing but a
+                            // disconnect takes Connected away
+                            if n.verif_connection() != ConnectionType::Connected {
                                 n.verif_set_connection(cn);
                             }
                             1
@@ -222,29 +328,45 @@ fn run_case(c: &mut Vec<u64>) -> Option<Vec<u64>> {
                     };
                 }
             }
-            3 => {
-                let dialer = *c.get(i)? != 0;
-                i += 1;
-                let address = addrs(1).pop().unwrap();
-                let connection_id = ConnectionId::new();
-                let ep = if dialer {
-                    Endpoint::Dialer { address, connection_id }
+            3 | 13 => {
+                let dialed: Option<u64> = if tag == 3 {
+                    let d = rd.n()?;
+                    case.push(d);
+                    (d != 0).then_some(1)
                 } else {
-                    Endpoint::Listener { address, connection_id }
+                    let d = rd.n()?;
+                    let _ = rd.list()?;
+                    case.push(d);
+                    rich = true;
+                    d.checked_sub(1)
+                };
+                let connection_id = ConnectionId::new();
+                let ep = match dialed {
+                    Some(a) => Endpoint::Dialer { address: addr_of(a, &peer), connection_id },
+                    None => Endpoint::Listener { address: addr_of(1, &peer), connection_id },
                 };
                 table.on_connection_established(key, ep);
                 code = 9;
             }
-            4 => {
-                let na = *c.get(i)? as usize;
-                i += 1;
-                table.on_dial_failure(key, &addrs(na));
+            4 | 14 => {
+                let l = if tag == 4 {
+                    let a = rd.n()?;
+                    case.push(a);
+                    addrs_old(a)
+                } else {
+                    let l = rd.list()?;
+                    let _ = rd.list()?;
+                    put_list(&mut case, &l);
+                    rich = true;
+                    l
+                };
+                table.on_dial_failure(key, &addrs_of(&l, &peer));
                 code = 9;
             }
             5 => {
-                let k = *c.get(i)? as usize;
-                i += 1;
-                let res = table.closest(&key, k);
+                let k = rd.n()?;
+                case.push(k);
+                let res = table.closest(&key, k as usize);
                 out.push(res.len() as u64);
                 for n in res.iter() {
                     out.push(ids.get(&n.verif_key().verif_raw()).copied().unwrap_or(0));
@@ -257,23 +379,73 @@ fn run_case(c: &mut Vec<u64>) -> Option<Vec<u64>> {
                 out.extend(ord.iter().map(|x| *x as u64));
                 continue;
             }
+            7 => {
+                // Kademlia::disconnect_peer (mod.rs), table part: an Occupied entry becomes
+                // NotConnected (the function itself is driven by the glue stream)
+                if let KBucketEntry::Occupied(n) = table.entry(key) {
+                    n.verif_set_connection(ConnectionType::NotConnected);
+                }
+                code = 9;
+            }
+            8 => {
+                let _ = rd.list()?;
+                // KademliaPeer::addresses() of the stored entry (what FIND_NODE replies carry);
+                // found by a read-only scan because RoutingTable::entry pushes a dummy for a
+                // vacant lookup
+                let raw = key.verif_raw();
+                let found = (0..table.verif_num_buckets())
+                    .flat_map(|i| table.verif_bucket(i).iter())
+                    .find(|n| n.verif_key().verif_raw() == raw);
+                match found {
+                    Some(n) => {
+                        let obs: Vec<u64> = n.addresses().iter().map(addr_id).collect();
+                        // the wire form of the entry (what a FIND_NODE reply carries) must name the
+                        // same addresses in the same order and the entry's connection type
+                        let wire = SchemaPeer::from(n);
+                        let wire_addrs: Vec<u64> = wire
+                            .addrs
+                            .iter()
+                            .filter_map(|a| Multiaddr::try_from(a.clone()).ok())
+                            .map(|a| addr_id(&a))
+                            .collect();
+                        let same = wire_addrs == obs
+                            && wire.addrs.len() == obs.len()
+                            && wire.connection == conn_code(n.verif_connection()) as i32
+                            && wire.id == n.verif_peer().to_bytes();
+                        put_list(&mut case, &obs);
+                        out.push(if same { 1 } else { 2 });
+                        put_list(&mut out, &obs);
+                    }
+                    None => {
+                        case.push(0);
+                        out.push(0);
+                    }
+                }
+                continue;
+            }
             _ => return None,
+        }
+        if rich {
+            let ev: Vec<u64> = take_evicted().iter().map(addr_id).collect();
+            put_list(&mut case, &ev);
+        } else if !take_evicted().is_empty() {
+            return None;
         }
         let next = snapshot(&table, &ids);
         out.push(code);
-        let ch: Vec<(usize, &Vec<[u64; 3]>)> =
+        let ch: Vec<(usize, &Vec<SnapNode>)> =
             (0..next.len()).filter(|j| snap[*j] != next[*j]).map(|j| (j, &next[j])).collect();
         emit_buckets(&mut out, &ch);
         drop(ch);
         snap = next;
     }
-    if i != c.len() {
+    if rd.i != c.len() {
         return None;
     }
-    let ne: Vec<(usize, &Vec<[u64; 3]>)> =
+    let ne: Vec<(usize, &Vec<SnapNode>)> =
         (0..snap.len()).filter(|j| !snap[*j].is_empty()).map(|j| (j, &snap[j])).collect();
     emit_buckets(&mut out, &ne);
-    Some(out)
+    Some((case, out))
 }
 
 // ---------------------------------------------------------------- generator
@@ -493,7 +665,263 @@ fn gen_case(rng: &mut Rng, small: bool, thorough: bool) -> Vec<u64> {
     b.finish()
 }
 
-fn run_emit(out: &mut Outputs, mut c: Vec<u64>) {
+fn rich_list(b: &mut Vec<u64>, l: &[u64]) {
+    b.push(l.len() as u64);
+    b.extend(l);
+}
+
+impl Builder {
+    /// rich forms (tags 11..14): explicit address numbers; the victims list is filled in by the run
+    fn insert(&mut self, k: u64, l: &[u64], c: u64) {
+        let mut o = vec![11, k];
+        rich_list(&mut o, l);
+        o.extend([c, 0]);
+        self.op(&o);
+    }
+    fn add(&mut self, k: u64, l: &[u64], c: u64) {
+        let mut o = vec![12, k];
+        rich_list(&mut o, l);
+        o.extend([c, 0]);
+        self.op(&o);
+    }
+    fn connected(&mut self, k: u64, dialed: Option<u64>) {
+        self.op(&[13, k, dialed.map_or(0, |a| a + 1), 0]);
+    }
+    fn dial_failure(&mut self, k: u64, l: &[u64]) {
+        let mut o = vec![14, k];
+        rich_list(&mut o, l);
+        o.push(0);
+        self.op(&o);
+    }
+}
+
+fn small_addrs(rng: &mut Rng) -> Vec<u64> {
+    match rng.below(8) {
+        0 => vec![0],
+        1 => vec![1],
+        2 => vec![0, 2],
+        3 => vec![1, 3],
+        4 => vec![2],
+        5 => vec![0, 1],
+        6 => vec![200, 3], // a public address
+        _ => vec![rng.below(6)],
+    }
+}
+
+fn pick_local(rng: &mut Rng) -> [u8; 32] {
+    match rng.below(10) {
+        0 | 1 => [0u8; 32],
+        2 => [0xffu8; 32],
+        _ => rand_raw(rng),
+    }
+}
+
+/// A bucket is filled to capacity with peers that are told to be connected (most of them through
+/// an inbound connection, which adds no address); dial failures, re-mentions with every
+/// connection type, inserts, lookups and a few disconnects follow; then newcomers of the same
+/// bucket arrive. By ground truth no connected peer may lose its place.
+fn gen_pressure_case(rng: &mut Rng, small: bool) -> Vec<u64> {
+    let mut b = Builder { keys: vec![], ops: vec![], nops: 0 };
+    let local = pick_local(rng);
+    b.key(0, local);
+    let real = rng.chance(25);
+    let j = if real {
+        255
+    } else {
+        match rng.below(8) {
+            0 => 255usize,
+            1 => 254,
+            2 => 5,
+            3 => 6,
+            4 => 7,
+            _ => rng.range(5, 255) as usize,
+        }
+    };
+    let nold = if small { rng.range(3, 6) } else { 20 } as usize;
+    let nnew = rng.range(1, if small { 2 } else { 5 }) as usize;
+    let mut ks: Vec<u64> = Vec::new();
+    if real {
+        // SHA-256 keys of real peer ids that fall into bucket 255 of the local key
+        let mut seed = 1 + rng.below(1_000_000) * 1000;
+        while ks.len() < nold + nnew {
+            let raw = Key::from(peer_from_seed(seed)).verif_raw();
+            if (raw[0] ^ local[0]) & 0x80 != 0 {
+                ks.push(b.key(seed, [0u8; 32]));
+            }
+            seed += 1;
+        }
+    } else {
+        let mut seen: Vec<[u8; 32]> = Vec::new();
+        while ks.len() < nold + nnew {
+            let d = dist_in_bucket(j, &rand_raw(rng));
+            if !seen.contains(&d) {
+                seen.push(d);
+                ks.push(b.key(0, xor(&local, &d)));
+            }
+        }
+    }
+    let (old, newc) = ks.split_at(nold);
+    // what each peer's store is expected to hold (for dial failures that hit stored addresses)
+    let mut known: HashMap<u64, Vec<u64>> = HashMap::new();
+    // with a small bucket (K = 20 is fixed in the code) the bucket is not full: still a valid case
+    for k in old.iter() {
+        let l = small_addrs(rng);
+        if rng.chance(70) {
+            let c = if rng.chance(60) { 0 } else { pick_conn(rng) };
+            b.add(*k, &l, c);
+            known.insert(*k, l.iter().map(|a| a & !1).collect());
+        } else {
+            let l = if rng.chance(30) { vec![] } else { l };
+            b.insert(*k, &l, pick_conn(rng));
+            known.insert(*k, l.clone());
+        }
+        if rng.chance(85) {
+            let dialed = if rng.chance(65) { None } else { Some(rng.below(6)) };
+            b.connected(*k, dialed);
+            if let Some(a) = dialed {
+                known.entry(*k).or_default().push(a);
+            }
+        }
+    }
+    let nnoise = if small { rng.range(2, 10) } else { rng.range(10, 45) };
+    for _ in 0..nnoise {
+        let k = old[rng.below(old.len() as u64) as usize];
+        match rng.below(100) {
+            0..=34 => {
+                // dial failure: the stored addresses (all of them, or one), or unrelated ones
+                let st = known.get(&k).cloned().unwrap_or_default();
+                let l = match rng.below(10) {
+                    0..=4 => st,
+                    5 | 6 => st.into_iter().take(1).collect(),
+                    7 => vec![],
+                    _ => small_addrs(rng),
+                };
+                b.dial_failure(k, &l);
+            }
+            35..=54 => {
+                let l = if rng.chance(8) { vec![] } else { small_addrs(rng) };
+                b.add(k, &l, rng.below(4));
+                known.entry(k).or_default().extend(l.iter().map(|a| a & !1));
+            }
+            55..=62 => b.insert(k, &small_addrs(rng), rng.below(4)),
+            63..=69 => b.op(&[0, k]),
+            70..=79 => b.connected(k, if rng.chance(60) { None } else { Some(rng.below(6)) }),
+            80..=87 => b.op(&[7, k]),
+            88..=93 => b.op(&[8, k, 0]),
+            _ => b.op(&[5, k, rng.pick(&[1u64, 20, 25])]),
+        }
+    }
+    for n in newc.iter() {
+        if rng.chance(70) {
+            b.add(*n, &small_addrs(rng), pick_conn(rng));
+        } else {
+            b.insert(*n, &small_addrs(rng), pick_conn(rng));
+        }
+        if rng.chance(30) {
+            let k = old[rng.below(old.len() as u64) as usize];
+            b.dial_failure(k, &known.get(&k).cloned().unwrap_or_default());
+        }
+    }
+    for _ in 0..3 {
+        let k = ks[rng.below(ks.len() as u64) as usize];
+        b.op(&[5, k, rng.pick(&[3u64, 20, 25, 1000])]);
+    }
+    b.finish()
+}
+
+/// Few peers, many addresses: the per-peer stores fill up (capacity 64, eviction of a minimal
+/// record), scores move with dial results, and `addresses()` reports the best 32.
+fn gen_addr_case(rng: &mut Rng, small: bool) -> Vec<u64> {
+    let mut b = Builder { keys: vec![], ops: vec![], nops: 0 };
+    let local = pick_local(rng);
+    b.key(0, local);
+    let npeers = rng.range(1, 4);
+    let mut ks = Vec::new();
+    for _ in 0..npeers {
+        let j = rng.below(256) as usize;
+        ks.push(b.key(0, xor(&local, &dist_in_bucket(j, &rand_raw(rng)))));
+    }
+    if rng.chance(30) {
+        ks.push(b.key(rng.range(1, 1_000_000), [0u8; 32]));
+    }
+    let pool = if small { 12 } else { rng.pick(&[40u64, 90, 140, 200]) };
+    let nops = if small { rng.range(4, 12) } else { rng.range(15, 60) };
+    let some = |rng: &mut Rng, max: u64| -> Vec<u64> {
+        let n = rng.range(1, max);
+        (0..n).map(|_| 2 * rng.below(pool) + rng.chance(25) as u64 + if rng.chance(20) { 200 } else { 0 }).collect()
+    };
+    for _ in 0..nops {
+        let k = ks[rng.below(ks.len() as u64) as usize];
+        match rng.below(100) {
+            0..=39 => b.add(k, &some(rng, if small { 4 } else { 45 }), if rng.chance(70) { 0 } else { rng.below(4) }),
+            40..=46 => b.insert(k, &some(rng, if small { 4 } else { 70 }), rng.below(4)),
+            47..=64 => b.dial_failure(k, &some(rng, if small { 3 } else { 30 })),
+            65..=76 => b.connected(k, if rng.chance(80) { Some(2 * rng.below(pool) + rng.chance(50) as u64) } else { None }),
+            77..=80 => b.op(&[7, k]),
+            81..=94 => b.op(&[8, k, 0]),
+            _ => b.op(&[5, k, 20]),
+        }
+    }
+    for k in ks.iter() {
+        b.op(&[8, *k, 0]);
+    }
+    b.finish()
+}
+
+/// The extremes of the key space: distances 1, 2, 3 (buckets 0 and 1), 2^255, 2^256-1, the local
+/// key itself and keys given twice, as stored peers and as targets.
+fn gen_extreme_case(rng: &mut Rng) -> Vec<u64> {
+    let mut b = Builder { keys: vec![], ops: vec![], nops: 0 };
+    let local = pick_local(rng);
+    b.key(0, local);
+    let mut top = [0u8; 32];
+    top[0] = 0x80;
+    let mut top1 = top;
+    top1[31] = 1;
+    let dists: Vec<[u8; 32]> = vec![
+        small_dist(1, 0),
+        small_dist(2, 0),
+        small_dist(3, 0),
+        top,
+        top1,
+        [0xffu8; 32],
+        small_dist(1, 248),
+        {
+            let mut d = [0xffu8; 32];
+            d[0] = 0x7f;
+            d
+        },
+    ];
+    let mut ks: Vec<u64> = dists.iter().map(|d| b.key(0, xor(&local, d))).collect();
+    // the same keys once more (a second entry of the key table names the same peer)
+    for d in dists.iter().take(3) {
+        ks.push(b.key(0, xor(&local, d)));
+    }
+    ks.push(b.key(0, local)); // the local key under another index
+    let nops = rng.range(10, 40);
+    for _ in 0..nops {
+        let k = ks[rng.below(ks.len() as u64) as usize];
+        match rng.below(100) {
+            0..=34 => b.add(k, &small_addrs(rng), pick_conn(rng)),
+            35..=44 => b.insert(k, &small_addrs(rng), pick_conn(rng)),
+            45..=52 => b.connected(k, if rng.chance(50) { None } else { Some(rng.below(4)) }),
+            53..=58 => b.dial_failure(k, &small_addrs(rng)),
+            59..=62 => b.op(&[7, k]),
+            63..=66 => b.op(&[0, k]),
+            67..=89 => b.op(&[5, k, rng.pick(&[0u64, 1, 2, 3, 20, 1000])]),
+            90..=94 => b.op(&[8, k, 0]),
+            _ => b.op(&[6, k]),
+        }
+    }
+    for k in ks.clone() {
+        b.op(&[5, k, 1000]);
+        b.op(&[6, k]);
+    }
+    b.op(&[5, 0, 1000]);
+    b.finish()
+}
+
+fn run_emit(out: &mut Outputs, c: Vec<u64>) {
     if c.first() == Some(&0) {
         // glue case (second stream): the observed operations are written back into the case
         match catch_unwind(AssertUnwindSafe(|| crate::c14_glue::run_stored(&c))) {
@@ -503,10 +931,11 @@ fn run_emit(out: &mut Outputs, mut c: Vec<u64>) {
         }
         return;
     }
-    let t = catch_unwind(AssertUnwindSafe(|| run_case(&mut c)))
-        .unwrap_or(Some(vec![PANIC_MARK]))
-        .unwrap_or(vec![0]);
-    out.emit(&c, &t);
+    match catch_unwind(AssertUnwindSafe(|| run_case(&c))) {
+        Ok(Some((case, t))) => out.emit(&case, &t),
+        Ok(None) => out.emit(&c, &[0]),
+        Err(_) => out.emit(&c, &[PANIC_MARK]),
+    }
 }
 
 pub fn main(args: &Args) {
@@ -554,7 +983,13 @@ pub fn main(args: &Args) {
                 let l = rand_raw(&mut r);
                 gen_pattern_case(&mut r, l, 123, 2)
             }
-            _ => gen_case(&mut r, n < 40, thorough),
+            44 | 45 => gen_extreme_case(&mut r),
+            _ => match n % 12 {
+                0 | 4 | 6 => gen_pressure_case(&mut r, n < 40),
+                9 => gen_addr_case(&mut r, n < 40),
+                10 if n % 24 == 10 => gen_extreme_case(&mut r),
+                _ => gen_case(&mut r, n < 40, thorough),
+            },
         };
         run_emit(&mut out, c);
     }
